@@ -1,5 +1,6 @@
 import SRVerif.Driver.Util
 import SRVerif.Model.Subseq
+import SRVerif.Spec.Subseq
 
 open Lean
 
@@ -27,7 +28,40 @@ def segDist : Handler := fun j => do
   let e ← getBool j "edges"
   pure (toJson (subseqSegmentDist c p e))
 
+/-- The specification side (`Spec/Subseq.lean`), evaluated independently of
+    the model: containment, keep/lost pattern, number of lost runs and the
+    prescribed distance. -/
+def spec : Handler := fun j => do
+  let c ← getNat j "child"
+  let p ← getNat j "parent"
+  let e ← getBool j "edges"
+  let pat := SubseqSpec.keptPattern c p
+  pure (Json.mkObj [
+    ("contained", toJson (SubseqSpec.containedB c p)),
+    ("pattern", Json.arr (pat.map (fun b => toJson (if b then 1 else 0 : Nat))).toArray),
+    ("runs", toJson (SubseqSpec.lostRuns e pat)),
+    ("dist", toJson (SubseqSpec.segmentDist c p e))])
+
+/-- Lost runs counted on sequences (the bridge statement's right-hand side). -/
+def specSeq : Handler := fun j => do
+  let c ← getNatList j "child"
+  let p ← getNatList j "parent"
+  let e ← getBool j "edges"
+  pure (toJson (SubseqSpec.lostRunsSeq e c p))
+
+/-- One row of the exhaustive grid: all children below `2 ^ nbits` against one
+    parent; model values and specification values side by side. -/
+def distRow : Handler := fun j => do
+  let p ← getNat j "parent"
+  let n ← getNat j "nbits"
+  let e ← getBool j "edges"
+  let cs := List.range (2 ^ n)
+  pure (Json.mkObj [
+    ("model", Json.arr (cs.map (fun c => toJson (subseqSegmentDist c p e))).toArray),
+    ("spec", Json.arr (cs.map (fun c => toJson (SubseqSpec.segmentDist c p e))).toArray)])
+
 def handlers : List (String × Handler) :=
-  [("mask_from", maskFrom), ("seq_from", seqFrom), ("complete", complete), ("seg_dist", segDist)]
+  [("mask_from", maskFrom), ("seq_from", seqFrom), ("complete", complete), ("seg_dist", segDist),
+   ("c18_spec", spec), ("c18_spec_seq", specSeq), ("c18_dist_row", distRow)]
 
 end SR.Drv.C18
